@@ -421,6 +421,19 @@ def cmdUnify (args : List String) : String :=
     " ".intercalate outs ++ " | " ++ DDP.Generics.showBindings sorted
   | _ => "bad-request"
 
+/-- `modinit <fuel> <m:i,j;…> <a,b,…>`: the modules initialised by a main module importing a, b, … -/
+def cmdModinit (args : List String) : String :=
+  match args with
+  | [fuel, graph, imports] =>
+    let nums (t : String) : List Nat := if t == "-" then [] else (t.splitOn ",").filterMap String.toNat?
+    let table : List (Nat × List Nat) := (graph.splitOn ";").filterMap fun e =>
+      match e.splitOn ":" with
+      | [m, is] => m.toNat?.map fun k => (k, nums (if is == "" then "-" else is))
+      | _ => none
+    let g : DDP.Modules.Graph := fun m => ((table.find? (·.1 == m)).map (·.2)).getD []
+    ",".intercalate ((DDP.Modules.initSeq g fuel.toNat! (nums imports)).map toString)
+  | _ => "bad-request"
+
 def dispatch (line : String) : String :=
   match (line.splitOn " ").filter (· ≠ "") with
   | "scan" :: args => cmdScan args
@@ -442,6 +455,7 @@ def dispatch (line : String) : String :=
   | "flt" :: args => cmdFlt args
   | "typos" :: args => cmdTypos args
   | "unify" :: args => cmdUnify args
+  | "modinit" :: args => cmdModinit args
   | _ => "bad-request"
 
 
